@@ -15,7 +15,11 @@ syntax "same_neg[" term "," term "]" : term
 syntax "same_io[" term "," term "]" : term
 syntax "same_h[" term "," term "]" : term
 syntax "same_sm[" term "," term "]" : term
+syntax "same_p[" term "," term "]" : term
+syntax "same_t[" term "," term "]" : term
 macro_rules
+  | `(same_t[$c, $d]) => `(($d).timed = ($c).timed)
+  | `(same_p[$c, $d]) => `(($d).resetParser = ($c).resetParser ∧ ($d).pst = ($c).pst)
   | `(same_cfg[$c, $d]) => `(($d).tlsMandatory = ($c).tlsMandatory ∧ ($d).tlsDisabled = ($c).tlsDisabled ∧
       ($d).authLegacy = ($c).authLegacy ∧ ($d).ctype = ($c).ctype ∧ ($d).cert = ($c).cert)
   | `(same_tls[$c, $d]) => `(($d).state = ($c).state ∧ ($d).hasTls = ($c).hasTls ∧
@@ -29,31 +33,48 @@ macro_rules
 
 /-! ### handler bookkeeping -/
 
+/-- every tracked field except the handler lists and the queue -/
+syntax "same_core[" term "," term "]" : term
+macro_rules
+  | `(same_core[$c, $d]) => `(same_cfg[$c, $d] ∧ same_tls[$c, $d] ∧ same_neg[$c, $d] ∧ same_sm[$c, $d] ∧
+      same_p[$c, $d] ∧ ($d).tx = ($c).tx)
+
 @[simp] theorem addTimed_frame (c : Conn) (fn : TFun) (p : Nat) (u : Bool) :
-    same_cfg[c, addTimed c fn p u] ∧ same_tls[c, addTimed c fn p u] ∧ same_neg[c, addTimed c fn p u] ∧
-    same_io[c, addTimed c fn p u] ∧ same_h[c, addTimed c fn p u] ∧ same_sm[c, addTimed c fn p u] := by
+    same_core[c, addTimed c fn p u] ∧ same_h[c, addTimed c fn p u] ∧ (addTimed c fn p u).queue = c.queue := by
   unfold addTimed; split <;> simp
 
+theorem mem_addTimed {c : Conn} {fn : TFun} {p : Nat} {u : Bool} {t : Timed}
+    (hm : t ∈ (addTimed c fn p u).timed) :
+    t ∈ c.timed ∨ (t.fn = fn ∧ t.uid = c.nextUid ∧ c.timed.any (fun t => t.fn = fn) = false) := by
+  unfold addTimed at hm
+  split at hm
+  · exact .inl hm
+  · rename_i hn
+    simp only [List.mem_cons] at hm
+    rcases hm with hm | hm
+    · exact .inr (by subst hm; exact ⟨rfl, rfl, by simpa using hn⟩)
+    · exact .inl hm
+
 @[simp] theorem delTimed_frame (c : Conn) (fn : TFun) :
-    same_cfg[c, delTimed c fn] ∧ same_tls[c, delTimed c fn] ∧ same_neg[c, delTimed c fn] ∧
-    same_io[c, delTimed c fn] ∧ same_h[c, delTimed c fn] ∧ same_sm[c, delTimed c fn] := by
+    same_core[c, delTimed c fn] ∧ same_h[c, delTimed c fn] ∧ (delTimed c fn).queue = c.queue ∧
+    (delTimed c fn).timed = c.timed.filter (·.fn ≠ fn) := by
   simp [delTimed]
 
 @[simp] theorem resetTimed_frame (c : Conn) :
-    same_cfg[c, resetTimed c] ∧ same_tls[c, resetTimed c] ∧ same_neg[c, resetTimed c] ∧
-    same_io[c, resetTimed c] ∧ same_h[c, resetTimed c] ∧ same_sm[c, resetTimed c] := by
+    same_core[c, resetTimed c] ∧ same_h[c, resetTimed c] ∧ (resetTimed c).queue = c.queue ∧
+    (resetTimed c).timed = c.timed.map (fun t => { t with lastStamp := c.now }) := by
   simp [resetTimed]
 
 @[simp] theorem notify_frame (c : Conn) (e : Ev) :
-    same_cfg[c, notify c e] ∧ same_tls[c, notify c e] ∧ same_neg[c, notify c e] ∧
-    same_io[c, notify c e] ∧ same_h[c, notify c e] ∧ same_sm[c, notify c e] := by
+    same_core[c, notify c e] ∧ same_h[c, notify c e] ∧ (notify c e).queue = c.queue ∧ same_t[c, notify c e] := by
   unfold notify; cases e <;> simp
 
 @[simp] theorem prepareReset_frame (c : Conn) (oh : OpenH) :
     same_cfg[c, prepareReset c oh] ∧ same_tls[c, prepareReset c oh] ∧ same_neg[c, prepareReset c oh] ∧
-    same_io[c, prepareReset c oh] ∧ same_sm[c, prepareReset c oh] ∧
+    same_io[c, prepareReset c oh] ∧ same_sm[c, prepareReset c oh] ∧ same_t[c, prepareReset c oh] ∧
     (prepareReset c oh).handlers = c.handlers ∧ (prepareReset c oh).idHandlers = c.idHandlers ∧
-    (prepareReset c oh).openHandler = oh := by
+    (prepareReset c oh).openHandler = oh ∧ (prepareReset c oh).resetParser = true ∧
+    (prepareReset c oh).pst = c.pst := by
   simp [prepareReset]
 
 /-- the handler `addHandler` appends when there is no duplicate -/
@@ -72,9 +93,8 @@ theorem addHandler_handlers (c : Conn) (fn : HFun) (ud : Nat) (ns name type : Op
   unfold addHandler newHandler; split <;> simp
 
 @[simp] theorem addHandler_frame (c : Conn) (fn : HFun) (ud : Nat) (ns name type : Option Bytes) (user : Bool) :
-    same_cfg[c, addHandler c fn ud ns name type user] ∧ same_tls[c, addHandler c fn ud ns name type user] ∧
-    same_neg[c, addHandler c fn ud ns name type user] ∧ same_io[c, addHandler c fn ud ns name type user] ∧
-    same_sm[c, addHandler c fn ud ns name type user] ∧
+    same_core[c, addHandler c fn ud ns name type user] ∧ same_t[c, addHandler c fn ud ns name type user] ∧
+    (addHandler c fn ud ns name type user).queue = c.queue ∧
     (addHandler c fn ud ns name type user).idHandlers = c.idHandlers ∧
     (addHandler c fn ud ns name type user).openHandler = c.openHandler := by
   unfold addHandler; split <;> simp
@@ -92,14 +112,9 @@ theorem mem_addHandler {c : Conn} {fn : HFun} {ud : Nat} {ns name type : Option 
     · exact .inl hm
     · exact .inr ⟨hm, by simpa using hn⟩
 
-theorem mem_addHandler_of_mem {c : Conn} {fn : HFun} {ud : Nat} {ns name type : Option Bytes} {user : Bool}
-    {h : Handler} (hm : h ∈ c.handlers) : h ∈ (addHandler c fn ud ns name type user).handlers := by
-  rw [addHandler_handlers]; split <;> simp [hm]
-
 @[simp] theorem addIdHandler_frame (c : Conn) (fn : HFun) (id : Bytes) (user : Bool) :
-    same_cfg[c, addIdHandler c fn id user] ∧ same_tls[c, addIdHandler c fn id user] ∧
-    same_neg[c, addIdHandler c fn id user] ∧ same_io[c, addIdHandler c fn id user] ∧
-    same_sm[c, addIdHandler c fn id user] ∧
+    same_core[c, addIdHandler c fn id user] ∧ same_t[c, addIdHandler c fn id user] ∧
+    (addIdHandler c fn id user).queue = c.queue ∧
     (addIdHandler c fn id user).handlers = c.handlers ∧
     (addIdHandler c fn id user).openHandler = c.openHandler := by
   unfold addIdHandler; split <;> simp
@@ -120,13 +135,13 @@ theorem mem_addIdHandler {c : Conn} {fn : HFun} {id : Bytes} {user : Bool}
 @[simp] theorem resetSmForReconnect_frame (c : Conn) :
     same_cfg[c, resetSmForReconnect c] ∧ same_tls[c, resetSmForReconnect c] ∧
     same_neg[c, resetSmForReconnect c] ∧ same_io[c, resetSmForReconnect c] ∧
-    same_h[c, resetSmForReconnect c] ∧
+    same_h[c, resetSmForReconnect c] ∧ same_p[c, resetSmForReconnect c] ∧ same_t[c, resetSmForReconnect c] ∧
     (resetSmForReconnect c).sm.enabled = false ∧ (resetSmForReconnect c).sm.queue = c.sm.queue := by
   by_cases h : c.sm.canResume = true <;> simp [resetSmForReconnect, h]
 
 theorem connDisconnect_eq (c : Conn) : connDisconnect c =
     if c.state = .disconnected then c else
-      notify (resetSmForReconnect { c with state := .disconnected, negotiated := false, hasTls := false })
+      notify (resetSmForReconnect { c with state := .disconnected, negotiated := false, hasTls := false, isRaw := false })
         (.disconnect c.error (c.streamError.map (·.1)) (c.streamError.bind (·.2))) := by
   unfold connDisconnect
   split
@@ -135,7 +150,8 @@ theorem connDisconnect_eq (c : Conn) : connDisconnect c =
 
 @[simp] theorem connDisconnect_frame (c : Conn) :
     same_cfg[c, connDisconnect c] ∧ same_neg[c, connDisconnect c] ∧ same_io[c, connDisconnect c] ∧
-    same_h[c, connDisconnect c] ∧ (connDisconnect c).sm.queue = c.sm.queue ∧
+    same_h[c, connDisconnect c] ∧ same_p[c, connDisconnect c] ∧ same_t[c, connDisconnect c] ∧
+    (connDisconnect c).sm.queue = c.sm.queue ∧
     (connDisconnect c).secured = c.secured ∧ (connDisconnect c).tlsFailed = c.tlsFailed ∧
     (connDisconnect c).state = .disconnected := by
   rw [connDisconnect_eq]; split <;> simp [*]
@@ -143,43 +159,41 @@ theorem connDisconnect_eq (c : Conn) : connDisconnect c =
 theorem connDisconnect_of_disconnected {c : Conn} (h : c.state = .disconnected) : connDisconnect c = c := by
   simp [connDisconnect, h]
 
-/-! ### sending -/
+theorem connDisconnect_enabled {c : Conn} (h : c.state ≠ .disconnected) : (connDisconnect c).sm.enabled = false := by
+  rw [connDisconnect_eq]; simp [h]
 
-/-- the snapshot `pushRaw` stamps on what it queues -/
-def snapOf (c : Conn) : Snap :=
-  { mandatory := c.tlsMandatory, tlsDisabled := c.tlsDisabled, authLegacy := c.authLegacy,
-    isClient := c.ctype = .client, cert := c.cert, negotiated := c.negotiated, g := c.g }
+/-! ### sending -/
 
 /-- the owner `pushRaw` records -/
 def ownerOf (c : Conn) (o : Owner) : Owner := if o = .strophe && !c.sm.enabled then .smStrophe else o
 
-def qelem (c : Conn) (it : Item) (o : Owner) : QElem :=
-  { item := it, owner := ownerOf c o, uid := c.nextUid, snap := snapOf c }
+def qelem (c : Conn) (it : Item) (o : Owner) (s : Snap) : QElem :=
+  { item := it, owner := ownerOf c o, uid := c.nextUid, snap := s }
 
-def reqElem (c : Conn) : QElem :=
-  { item := .req, owner := .smStrophe, linked := true, uid := c.nextUid + 1, snap := snapOf c }
+def reqElem (c : Conn) (s : Snap) : QElem :=
+  { item := .req, owner := .smStrophe, linked := true, uid := c.nextUid + 1, snap := s }
 
-theorem pushRaw_eq (c : Conn) (it : Item) (o : Owner) : pushRaw c it o =
+theorem pushRawWith_eq (c : Conn) (it : Item) (o : Owner) (s : Snap) : pushRawWith c it o s =
     if !(ownerOf c o).smBit && c.sm.enabled && !c.sm.rSent then
       if c.state = .connected then
-        { c with queue := (c.queue ++ [qelem c it o]) ++ [reqElem c], nextUid := c.nextUid + 1 + 1,
+        { c with queue := (c.queue ++ [qelem c it o s]) ++ [reqElem c s], nextUid := c.nextUid + 1 + 1,
                  sm := { c.sm with rSent := true } }
-      else { c with queue := c.queue ++ [qelem c it o], nextUid := c.nextUid + 1, sm := { c.sm with rSent := true } }
-    else { c with queue := c.queue ++ [qelem c it o], nextUid := c.nextUid + 1 } := by
+      else { c with queue := c.queue ++ [qelem c it o s], nextUid := c.nextUid + 1, sm := { c.sm with rSent := true } }
+    else { c with queue := c.queue ++ [qelem c it o s], nextUid := c.nextUid + 1 } := by
   rfl
 
-@[simp] theorem pushRaw_frame (c : Conn) (it : Item) (o : Owner) :
-    same_cfg[c, pushRaw c it o] ∧ same_tls[c, pushRaw c it o] ∧ same_neg[c, pushRaw c it o] ∧
-    same_h[c, pushRaw c it o] ∧ same_sm[c, pushRaw c it o] ∧ (pushRaw c it o).tx = c.tx := by
-  rw [pushRaw_eq]
+@[simp] theorem pushRawWith_frame (c : Conn) (it : Item) (o : Owner) (s : Snap) :
+    same_core[c, pushRawWith c it o s] ∧ same_h[c, pushRawWith c it o s] ∧ same_t[c, pushRawWith c it o s] := by
+  rw [pushRawWith_eq]
   split
   · split <;> simp
   · simp
 
-theorem mem_pushRaw {c : Conn} {it : Item} {o : Owner} {e : QElem} (hm : e ∈ (pushRaw c it o).queue) :
-    e ∈ c.queue ∨ (e.snap = snapOf c ∧
+theorem mem_pushRawWith {c : Conn} {it : Item} {o : Owner} {s : Snap} {e : QElem}
+    (hm : e ∈ (pushRawWith c it o s).queue) :
+    e ∈ c.queue ∨ (e.snap = s ∧
       ((e.item = it ∧ e.owner = ownerOf c o) ∨ (e.item = .req ∧ e.owner = .smStrophe))) := by
-  rw [pushRaw_eq] at hm
+  rw [pushRawWith_eq] at hm
   split at hm
   · split at hm
     · simp only [List.mem_append, List.mem_singleton] at hm
@@ -196,6 +210,12 @@ theorem mem_pushRaw {c : Conn} {it : Item} {o : Owner} {e : QElem} (hm : e ∈ (
     · exact .inl hm
     · subst hm; exact .inr ⟨rfl, .inl ⟨rfl, rfl⟩⟩
 
+theorem pushRaw_eq (c : Conn) (it : Item) (o : Owner) : pushRaw c it o = pushRawWith c it o (curSnap c) := rfl
+
+@[simp] theorem pushRaw_frame (c : Conn) (it : Item) (o : Owner) :
+    same_core[c, pushRaw c it o] ∧ same_h[c, pushRaw c it o] ∧ same_t[c, pushRaw c it o] := by
+  rw [pushRaw_eq]; exact pushRawWith_frame ..
+
 theorem sendStanza_eq (c : Conn) (it : Item) (o : Owner) :
     sendStanza c it o = if isConnectedFor c o then pushRaw c it o else c := rfl
 theorem sendRaw_eq (c : Conn) (it : Item) (o : Owner) :
@@ -204,33 +224,24 @@ theorem sendRawString_eq (c : Conn) (it : Item) :
     sendRawString c it = if c.state = .connected then pushRaw c it .smStrophe else c := rfl
 
 @[simp] theorem sendStanza_frame (c : Conn) (it : Item) (o : Owner) :
-    same_cfg[c, sendStanza c it o] ∧ same_tls[c, sendStanza c it o] ∧ same_neg[c, sendStanza c it o] ∧
-    same_h[c, sendStanza c it o] ∧ same_sm[c, sendStanza c it o] ∧ (sendStanza c it o).tx = c.tx := by
+    same_core[c, sendStanza c it o] ∧ same_h[c, sendStanza c it o] ∧ same_t[c, sendStanza c it o] := by
   rw [sendStanza_eq]; split <;> simp
 
 @[simp] theorem sendRaw_frame (c : Conn) (it : Item) (o : Owner) :
-    same_cfg[c, sendRaw c it o] ∧ same_tls[c, sendRaw c it o] ∧ same_neg[c, sendRaw c it o] ∧
-    same_h[c, sendRaw c it o] ∧ same_sm[c, sendRaw c it o] ∧ (sendRaw c it o).tx = c.tx := by
+    same_core[c, sendRaw c it o] ∧ same_h[c, sendRaw c it o] ∧ same_t[c, sendRaw c it o] := by
   rw [sendRaw_eq]; split <;> simp
 
 @[simp] theorem sendRawString_frame (c : Conn) (it : Item) :
-    same_cfg[c, sendRawString c it] ∧ same_tls[c, sendRawString c it] ∧ same_neg[c, sendRawString c it] ∧
-    same_h[c, sendRawString c it] ∧ same_sm[c, sendRawString c it] ∧ (sendRawString c it).tx = c.tx := by
+    same_core[c, sendRawString c it] ∧ same_h[c, sendRawString c it] ∧ same_t[c, sendRawString c it] := by
   rw [sendRawString_eq]; split <;> simp
 
-@[simp] theorem xmppDisconnect_frame (c : Conn) :
-    same_cfg[c, xmppDisconnect c] ∧ same_tls[c, xmppDisconnect c] ∧ same_neg[c, xmppDisconnect c] ∧
-    same_h[c, xmppDisconnect c] ∧ same_sm[c, xmppDisconnect c] ∧ (xmppDisconnect c).tx = c.tx := by
-  unfold xmppDisconnect; split <;> simp
-
 @[simp] theorem connOpenStream_frame (c : Conn) :
-    same_cfg[c, connOpenStream c] ∧ same_tls[c, connOpenStream c] ∧ same_neg[c, connOpenStream c] ∧
-    same_h[c, connOpenStream c] ∧ same_sm[c, connOpenStream c] ∧ (connOpenStream c).tx = c.tx := by
+    same_core[c, connOpenStream c] ∧ same_h[c, connOpenStream c] ∧ same_t[c, connOpenStream c] := by
   simp [connOpenStream]
 
 @[simp] theorem negotiationSuccess_frame (c : Conn) :
-    same_cfg[c, negotiationSuccess c] ∧ same_tls[c, negotiationSuccess c] ∧ same_neg[c, negotiationSuccess c] ∧
-    same_io[c, negotiationSuccess c] ∧ same_h[c, negotiationSuccess c] ∧ same_sm[c, negotiationSuccess c] := by
+    same_core[c, negotiationSuccess c] ∧ same_h[c, negotiationSuccess c] ∧ same_t[c, negotiationSuccess c] ∧
+    (negotiationSuccess c).queue = c.queue := by
   simp [negotiationSuccess]
 
 end Strophe.Lemmas.ConnC02
